@@ -4,7 +4,7 @@ import vlib, framework as F
 from checks import engine as E, common as C
 from checks.engine import Failure
 
-WHAT = "model,hooks,classes"
+WHAT = "model,hooks,classes,wf"
 RULE = ("regression corpus + the repository's own test snippets (also under verbosity OFF / INFORMATION / MANDATORY) + seeded random programs "
         "(gen/jsgen.py) under configurations drawn from a pool (method subsets/renamings, every verbosity spelling); the extracted "
         "hook-site counter / tagger (coq/HookSites.v) runs on the implementation's own output tree; a case is non-trivial when the "
@@ -62,7 +62,34 @@ def judge(ctx):
     else:
         if met.get("propagationDebug") is not None:
             out.append(Failure("tags: propagationDebug present with verbosity %s" % verb, info=info))
+    # the measure of the global theorem (C15_count_equals_references_emitted) on the implementation's own trees:
+    # references to the hook namespace in the output - those of the input - those of the prologue = the reported count
+    if "out_ns" in m and verb != "OFF" and not out:
+        refs = (m["out_ns"] - m.get("in_ns", 0) - m.get("prologue_ns", 0)) if modified else 0
+        info["namespace_references"] = refs
+        if refs != met["instrumentedPropagation"]:
+            out.append(Failure("count: instrumentedPropagation=%d but %d references to the hook namespace were emitted (verbosity %s)" % (met["instrumentedPropagation"], refs, verb), info=info))
     return out
+
+
+HYP = collections.Counter()
+
+
+def projection(ctx):
+    """pi_C15 by verdict, plus: the hypotheses of the global theorem are evaluated on the parser's tree."""
+    m = ctx.m
+    if "in_wf" in m and not getattr(ctx, "is_model", False):
+        HYP["inputs"] += 1
+        if m.get("in_optchain"):
+            HYP["with_optional_chain (outside the theorem's fragment)"] += 1
+        elif not m["in_wf"]:
+            HYP["wf_all_false"] += 1
+            return False, "wf_all (hypothesis of C15_count_equals_references_emitted) is false on a tree produced by the parser"
+        elif m.get("in_ns", 0) != 0:
+            HYP["input_mentions_namespace (outside the theorem's fragment)"] += 1
+        else:
+            HYP["hypotheses_hold"] += 1
+    return E.verdict_projection(__import__("checks.C15", fromlist=["x"]), ctx, C.known_for("C15"))
 
 
 def nontrivial(ctx):
@@ -74,6 +101,8 @@ def sample_info(ctx):
 
 
 def run(O, P):
+    HYP.clear()
     E.run(O, P, __import__("checks.C15", fromlist=["x"]), "C15")
+    O.coverage["global_theorem_hypotheses_on_input_trees"] = dict(HYP)
     O.assumptions += ["hook sites of an output are recognised syntactically (call whose callee is _ddiast.<name>); inputs that already mention _ddiast are discounted by subtracting the input's own sites",
                       "swc's serde serialization of its AST is faithful (harness dump)"]
